@@ -4,6 +4,7 @@ import (
 	"fmt"
 	"math"
 	"strconv"
+	"strings"
 
 	"pgregory.net/rapid"
 )
@@ -130,7 +131,30 @@ func GenEnumDecl(t *rapid.T, min, max int) []string {
 	if n > len(perm) {
 		n = len(perm)
 	}
-	return append([]string(nil), perm[:n]...)
+	decl := append([]string(nil), perm[:n]...)
+	// now and then the values in use come after ~200 unused declared values: their internal codes are then high
+	// (enum filters work on a 256-bit set of value codes, sorting on the code order)
+	if rapid.IntRange(0, 9).Draw(t, "highcodes") == 0 {
+		fill := rapid.IntRange(185, 248-n).Draw(t, "fillers") // room left for values a check adds itself (C13 declares "")
+		high := make([]string, 0, fill+n)
+		for i := 0; i < fill; i++ {
+			high = append(high, fmt.Sprintf("%s%03d", unusedPrefix, i))
+		}
+		decl = append(high, decl...)
+	}
+	return decl
+}
+
+const unusedPrefix = "\x02unused-"
+
+// usedValues returns the declared values that cells are drawn from (all but the unused fillers).
+func usedValues(decl []string) []string {
+	for i, v := range decl {
+		if !strings.HasPrefix(v, unusedPrefix) {
+			return decl[i:]
+		}
+	}
+	return decl
 }
 
 // TableOpt configures GenTable.
@@ -241,7 +265,7 @@ func GenTable(t *rapid.T, o TableOpt) Table {
 					if !o.NoNull && rapid.IntRange(0, 4).Draw(t, "enull") == 0 {
 						continue
 					}
-					c.S[r] = Sp(rapid.SampledFrom(decl).Draw(t, "ev"))
+					c.S[r] = Sp(rapid.SampledFrom(usedValues(decl)).Draw(t, "ev"))
 				}
 			}
 		}
